@@ -107,7 +107,8 @@ theorem inv_step (w : World) (op : Op) (hw : WInv w) : WInv (step w op).1 := win
 /-- hence it holds after every operation history -/
 theorem inv_reachable (ops : List Op) : WInv (exec World.init ops) := winv_exec inv_init ops
 
-/-- in a reachable world two different members of a namespace have different bits (accession indices) … -/
+/-- in a reachable world two different members of a namespace have different bits (accession indices) — stated on the
+index map's answers (`some i ≠ …`); `t'` need not even be a member, a non-member has no index at all … -/
 theorem bits_distinct (ops : List Op) (s : NS) (hs : s ∈ (exec World.init ops).nss) (t t' : Nat)
     (ht : t ∈ s.taxa) (_ht' : t' ∈ s.taxa) (hne : t ≠ t') : s.t2a.get t ≠ s.t2a.get t' := by
   have hi := (inv_reachable ops).ns s hs
@@ -274,6 +275,29 @@ theorem mask_roundtrip (s : NS) (hi : Inv s) (S : List Nat) (hS : ∀ t ∈ S, t
     obtain ⟨i, hti⟩ := Option.isSome_iff_exists.1 ((hi.dom t).1 (hS t ht))
     exact ⟨i, (g4' i).2 ⟨t, ht, hti⟩, by rw [g3, Nat.zero_add]; exact (hi.inverse t i).1 hti⟩
 
+/-- the round trip, exactly: the list `bitmask_taxa_list` returns holds the taxa of `S`, each once, in ascending order
+of their bits (so a repeat in `S` does not come back twice) -/
+theorem mask_roundtrip_exact (s : NS) (hi : Inv s) (S : List Nat) (hS : ∀ t ∈ S, t ∈ s.taxa) :
+    ∃ s' m L, s.taxaBitmask S 0 = (s', .ok m) ∧ btl s'.a2t m 0 = .ok L ∧ (∀ t, t ∈ L ↔ t ∈ S) ∧ L.Nodup ∧
+      L.Pairwise (fun a b => ∃ i j, s.t2a.get a = some i ∧ s.t2a.get b = some j ∧ i < j) := by
+  obtain ⟨s', m, e, _, _, _, g3, _⟩ := taxaBitmask_spec S s 0 hi hS
+  obtain ⟨s'', m', L, e', eL, hL, _⟩ := mask_roundtrip s hi S hS
+  rw [e] at e'; cases e'
+  obtain ⟨p, _⟩ := btl_sorted s'.a2t m 0 L eL
+  have hp : L.Pairwise (fun a b => ∃ i j, s.t2a.get a = some i ∧ s.t2a.get b = some j ∧ i < j) := by
+    refine p.imp ?_
+    rintro a b ⟨i, j, hij, ha, hb⟩
+    rw [g3, Nat.zero_add] at ha hb
+    exact ⟨i, j, (hi.inverse a i).2 ha, (hi.inverse b j).2 hb, hij⟩
+  refine ⟨s', m, L, e, eL, hL, ?_, hp⟩
+  refine hp.imp ?_
+  rintro a b ⟨i, j, ha, hb, hij⟩ e
+  subst e; rw [ha] at hb; cases hb; omega
+
+/-- a state the driver produces (A,B,C,D; A removed; sorted descending): the list `[3, 1, 3]` has members only -/
+example : ∃ s, (exec World.init [.mkns false [.lab "A", .lab "B", .lab "C", .lab "D"], .rm 0 0, .sort 0 true]).nss[0]? = some s ∧
+    s.taxa = [3, 2, 1] ∧ ∀ t ∈ [3, 1, 3], t ∈ s.taxa := ⟨_, rfl, by decide, by decide⟩
+
 /-- the (repaired) Newick rendering of the mask of a list `S` of members: unless the mask is 0 or the all-taxa mask
 (flat list of all labels), the left group holds exactly the labels of the members in `S` and the right group the
 labels of the other members, both in membership order -/
@@ -416,7 +440,9 @@ theorem lookup_spec (s : NS) (lab : Nat → String) (c : Option Bool) (l : Strin
   · simp [NS.lookupFirst, scanFirst_eq]
 
 /-- what "matches" means: equality of the labels, or of their lower-cased forms when the effective setting is
-case-insensitive -/
+case-insensitive.  "Lower-cased" is the model's `pyLower`, which folds ASCII and Latin-1 letters only (e.g.
+`pyLower "İ" = "İ"`); that it equals CPython's `str.lower` is not proved but tested, on every label the generators
+produce, through the driver op `lower` — labels outside that repertoire are outside the model. -/
 theorem labelMatches_iff (lab : Nat → String) (cs : Bool) (l : String) (t : Nat) :
     labelMatches lab cs l t = true ↔ (if cs = true then l = lab t else pyLower l = pyLower (lab t)) := by
   unfold labelMatches; cases cs <;> simp
@@ -566,6 +592,63 @@ theorem require_spec (w : World) (hw : WInv w) (n : Nat) (s : NS) (hs : w.nss[n]
     · simp [get_put_self]
     · intro t ht; simp [get_put_ne _ _ _ _ ht]
     · simp [World.lab]
+
+/-- "creates exactly one new member": requiring the same label again — under the same case setting — returns the very
+taxon the first call returned (found or created) and changes nothing any more -/
+theorem require_idempotent (w : World) (hw : WInv w) (n : Nat) (s : NS) (hs : w.nss[n]? = some s) (c : Option Bool)
+    (l : String) (t : Nat) (h : (step w (.req n c l)).2 = .id t) :
+    step (step w (.req n c l)).1 (.req n c l) = ((step w (.req n c l)).1, .id t) := by
+  have hi := hw.ns s (List.mem_of_getElem? hs)
+  have hmem := List.mem_of_getElem? hs
+  have hlt : n < w.nss.length := (List.getElem?_eq_some_iff.1 hs).1
+  cases hf : s.taxa.find? (labelMatches w.lab (s.effCs c) l) with
+  | some t0 =>
+    have e := (require_spec w hw n s hs c l).1 t0 hf
+    rw [e] at h ⊢
+    simp only [Out.id.injEq] at h; subst h
+    exact e
+  | none =>
+    cases hm : s.mutable_ with
+    | false =>
+      have e := (require_spec w hw n s hs c l).2.1 hf hm
+      rw [e] at h; cases h
+    | true =>
+      have hfresh : s.contains w.labels.length = false := by
+        cases hc : s.contains w.labels.length with
+        | false => rfl
+        | true => have := hw.fresh s hmem _ ((hi.dom _).2 ((contains_iff s _).1 hc)); omega
+      obtain ⟨s1, hs1⟩ : ∃ s1 : NS, s1 = { s with taxa := s.taxa ++ [w.labels.length], a2t := s.a2t.put s.count w.labels.length, t2a := s.t2a.put w.labels.length s.count, count := s.count + 1 } :=
+        ⟨_, rfl⟩
+      have e : step w (.req n c l) = (⟨w.labels ++ [l], w.nss.set n s1⟩, .id w.labels.length) := by
+        rw [step_ns (n := n) rfl rfl, hs, hs1]
+        simp [stepNs, (lookup_spec s w.lab c l).2, hf, hm, newTaxon, NS.addTaxon, hfresh, World.setNs, exceptOut]
+      have ht1 : s1.taxa = s.taxa ++ [w.labels.length] := by rw [hs1]
+      have hc1 : s1.effCs c = s.effCs c := by rw [hs1]; cases c <;> rfl
+      have hw1 : WInv (step w (.req n c l)).1 := winv_step hw _
+      rw [e] at h hw1 ⊢
+      simp only [Out.id.injEq] at h; subst h
+      have hs1' : (World.mk (w.labels ++ [l]) (w.nss.set n s1)).nss[n]? = some s1 := by simp [hlt]
+      refine (require_spec _ hw1 n s1 hs1' c l).1 _ ?_
+      rw [ht1, hc1, List.find?_append]
+      have hold : List.find? (labelMatches (World.lab ⟨w.labels ++ [l], w.nss.set n s1⟩) (s.effCs c) l) s.taxa = none := by
+        rw [List.find?_eq_none] at hf ⊢
+        intro x hx
+        have hxl : x < w.labels.length := hw.fresh s hmem x hx
+        have : World.lab ⟨w.labels ++ [l], w.nss.set n s1⟩ x = w.lab x := by
+          simp [World.lab, List.getD_eq_getElem?_getD, List.getElem?_append_left hxl]
+        have h0 := hf x hx
+        simp only [labelMatches, this] at h0 ⊢
+        exact h0
+      have hnew : labelMatches (World.lab ⟨w.labels ++ [l], w.nss.set n s1⟩) (s.effCs c) l w.labels.length = true := by
+        have hl : World.lab ⟨w.labels ++ [l], w.nss.set n s1⟩ w.labels.length = l := by simp [World.lab]
+        have := labelMatches_self (World.lab ⟨w.labels ++ [l], w.nss.set n s1⟩) (s.effCs c) w.labels.length
+        rwa [hl] at this
+      rw [hold]; simp [hnew]
+
+/-- both branches occur: "b" is found (case-insensitively) in A,B; "c" is created, then found -/
+example : (step (exec World.init [.mkns false [.lab "A", .lab "B"]]) (.req 0 none "b")).2 matches .id 1 := by decide
+example : (step (exec World.init [.mkns false [.lab "A", .lab "B"]]) (.req 0 none "c")).2 matches .id 2 := by decide
+example : (exec World.init [.mkns false [.lab "A", .lab "B"], .req 0 none "c", .req 0 none "C"]).nss.map (·.taxa) = [[0, 1, 2]] := by decide
 
 /-! ## (d) immutable namespaces never gain members -/
 
@@ -921,6 +1004,22 @@ theorem refusals_spec (w : World) (hw : WInv w) (n : Nat) (s : NS) (hs : w.nss[n
 example : ∃ w s, WInv w ∧ w.nss[0]? = some s ∧ (∃ i, (3 : Nat).testBit i = true ∧ s.a2t.get i = none) ∧ (∃ t ∈ [0, 1], t ∉ s.taxa) :=
   ⟨exec World.init [.mkns false [.lab "A", .lab "B"], .rm 0 0], _, inv_reachable _, rfl, ⟨0, by decide, by decide⟩,
     ⟨0, by decide, by decide⟩⟩
+
+/-- … and the list that comes back is duplicate-free and ascending by bit -/
+theorem tbm_btl_ops_exact (w : World) (hw : WInv w) (n : Nat) (s : NS) (hs : w.nss[n]? = some s) (S : List Nat)
+    (hS : ∀ t ∈ S, t ∈ s.taxa) :
+    ∃ m L, (step w (.tbm n S)).2 = .nat m ∧ (step (step w (.tbm n S)).1 (.btl n m)).2 = .ids L ∧
+      (∀ t, t ∈ L ↔ t ∈ S) ∧ L.Nodup ∧
+      L.Pairwise (fun a b => ∃ i j, s.t2a.get a = some i ∧ s.t2a.get b = some j ∧ i < j) := by
+  have hi := hw.ns s (List.mem_of_getElem? hs)
+  obtain ⟨s', m, L, e, eL, hL, hnd, hp⟩ := mask_roundtrip_exact s hi S hS
+  have hlt : n < w.nss.length := (List.getElem?_eq_some_iff.1 hs).1
+  have h1 : step w (.tbm n S) = (w.setNs n s', .nat m) := by
+    rw [step_at rfl rfl hs]; simp [stepNs, e, exceptOut]
+  refine ⟨m, L, by rw [h1], ?_, hL, hnd, hp⟩
+  rw [h1]
+  have hs2 : (w.setNs n s').nss[n]? = some s' := by simp [World.setNs, hlt]
+  rw [step_at rfl rfl hs2]; simp [stepNs, eL, exceptOut]
 
 /-- the pure observers `all_taxa_bitmask`, `bitmask_taxa_list`, `bitmask_as_bitstring`, `in`: their answer and no change -/
 theorem observers_spec (w : World) (n : Nat) (s : NS) (hs : w.nss[n]? = some s) (m t : Nat) :
